@@ -43,7 +43,113 @@ def parseTComp? (s : String) : Option TComp := do
   | [f, so] => some { flags := f, solid := so != 0 }
   | _ => none
 
+def parseKey? (s : String) : Option Key := do
+  let xs ← parseNatList? s
+  match xs with
+  | [ib, ic] => some (ib, ic)
+  | _ => none
+
+/-- one step `[[key,...],[frac,...]]` with keys `[ib,ic]` -/
+def parseStep? (s : String) : Option (List Key × List Rat) := do
+  let parts ← splitTop s
+  match parts with
+  | [ks, fs] => do
+    let ks ← parseList? parseKey? ks
+    let fs ← parseRatList? fs
+    pure (ks, fs)
+  | _ => none
+
+/-- `setExpansionFactors` call by call on one store; after every call the factor of every key `(0,0..n-1)` -/
+def storeTrace (n : Nat) : Store → List (List Key × List Rat) → List String
+  | _, [] => []
+  | s, st :: rest =>
+    let r := setExpansionFactors s st.1 st.2
+    let s' := r.getD s
+    ((if r.isSome then "K" else "R") ++ showList showRat ((List.range n).map (getFactor s' 0))) :: storeTrace n s' rest
+
+def showState (r : List Block) : String := showList showBlock r ++ " " ++ showList showRat (mesh r)
+
+/-- the re-use route step by step; stops at the first refused step -/
+def reuseTrace (L : Links) : RState → List (List Key × List Rat) → List String
+  | _, [] => []
+  | st, step :: rest =>
+    match stepReuse L st step with
+    | none => ["reject"]
+    | some st' => showState st'.a :: reuseTrace L st' rest
+
+def freshTrace (L : Links) : List Block → List (List Key × List Rat) → List String
+  | _, [] => []
+  | a, step :: rest =>
+    match stepFresh L a step with
+    | none => ["reject"]
+    | some a' => showState a' :: freshTrace L a' rest
+
+-- reuse|fresh <hs> <zbs> <zts> <nds> <areas> <geo> <targets> <steps>: setAssembly once, then per step
+-- setExpansionFactors + axiallyExpandAssembly on ONE store (reuse) or on a fresh store per step (fresh)
+def routeAnswer (reuse : Bool) (hs zbs zts nds areas geo targets steps : String) : String :=
+    match parseRatList? hs, parseRatList? zbs, parseRatList? zts, parseList? parseRatList? nds,
+          parseList? parseRatList? areas, parseList? (parseList? parseGeo?) geo, parseList? parseOptNat? targets,
+          parseList? parseStep? steps with
+    | some hs, some zbs, some zts, some nds, some areas, some geo, some targets, some steps =>
+      match mkBlocks hs zbs zts nds areas, linkAssembly none geo with
+      | some a, some links =>
+        let lowers := links.map (fun l => l.map (·.1))
+        let L : Links := { lower := fun ib ic => ((lowers[ib]?).bind (·[ic]?)).getD none
+                           target := fun ib => (targets[ib]?).getD none }
+        "|".intercalate (if reuse then reuseTrace L { store := [], a := a } steps else freshTrace L a steps)
+      | some _, none => "reject"
+      | none, _ => "bad-op"
+    | _, _, _, _, _, _, _, _ => "bad-op"
+
+def showSpec : FactorSpec → String
+  | .one => "1"
+  | .fromInputTo T => "in:" ++ showRat T
+  | .between T0 T => showRat T0 ++ ":" ++ showRat T
+
+/-- thermal ops: `[0,ib,ic,T]` = updateComponentTemp, `[1]` = read the factor specs of all keys,
+`[2,[grid],[field]]` = updateComponentTempsBy1DTempField -/
+def thermalTrace (zbs zts : List Rat) (keys : List Key) : Thermal → List String → List String
+  | _, [] => []
+  | th, op :: rest =>
+    match splitTop op with
+    | some ["0", ib, ic, T] =>
+      match parseNat? ib, parseNat? ic, parseRat? T with
+      | some ib, some ic, some T => thermalTrace zbs zts keys (updateComponentTemp th (ib, ic) T) rest
+      | _, _, _ => ["bad-op"]
+    | some ["1"] => showList showSpec (keys.map (factorSpec th)) :: thermalTrace zbs zts keys th rest
+    | some ["2", grid, field] =>
+      match parseRatList? grid, parseRatList? field with
+      | some grid, some field =>
+        let a : List Block := (List.zip zbs zts).map (fun p => { h := p.2 - p.1, zb := p.1, zt := p.2, comps := [] })
+        match updateByField th a (fun ib => keys.filter (fun k => k.1 == ib)) grid field with
+        | some th' => thermalTrace zbs zts keys th' rest
+        | none => ["reject"]
+      | _, _ => ["bad-op"]
+    | _ => ["bad-op"]
+
 def answer : List String → String
+  -- thermal <fromInput T/F> <zbs> <zts> <keys [[ib,ic],..]> <temps> <ops>
+  | ["thermal", fi, zbs, zts, keys, temps, ops] =>
+    match parseBool? fi, parseRatList? zbs, parseRatList? zts, parseList? parseKey? keys, parseRatList? temps, splitTop ops with
+    | some fi, some zbs, some zts, some keys, some temps, some ops =>
+      if keys.length ≠ temps.length ∨ zbs.length ≠ zts.length then "bad-op" else
+      ";".intercalate (thermalTrace zbs zts keys { fromInput := fi, ref := [], temp := List.zip keys temps } ops)
+    | _, _, _, _, _, _ => "bad-op"
+  -- store <n> <steps>: ExpansionData.setExpansionFactors / getExpansionFactor, call by call (keys (0,k))
+  | ["store", n, steps] =>
+    match parseNat? n, parseList? parseStep? steps with
+    | some n, some steps => ";".intercalate (storeTrace n [] steps)
+    | _, _ => "bad-op"
+  | ["reuse", hs, zbs, zts, nds, areas, geo, targets, steps] => routeAnswer true hs zbs zts nds areas geo targets steps
+  | ["fresh", hs, zbs, zts, nds, areas, geo, targets, steps] => routeAnswer false hs zbs zts nds areas geo targets steps
+  -- blocktemps <zbs> <zts> <grid> <field>: updateComponentTempsBy1DTempField's block-average temperatures
+  | ["blocktemps", zbs, zts, grid, field] =>
+    match parseRatList? zbs, parseRatList? zts, parseRatList? grid, parseRatList? field with
+    | some zbs, some zts, some grid, some field =>
+      if zbs.length ≠ zts.length then "bad-op" else
+      showOpt (showList showRat)
+        (blockTemps ((List.zip zbs zts).map (fun p => { h := p.2 - p.1, zb := p.1, zt := p.2, comps := [] })) grid field)
+    | _, _, _, _ => "bad-op"
   | ["expand", hs, zbs, zts, nds, areas, gs, lowers, targets] =>
     match parseRatList? hs, parseRatList? zbs, parseRatList? zts, parseList? parseRatList? nds,
           parseList? parseRatList? areas, parseList? parseRatList? gs,
